@@ -105,7 +105,7 @@ void BinaryFileReader::read_topo_chunk(Decoder &reader)
         return;
     }
 
-    if (!is_valid(header.handle_encoding)) {
+    if (!is_valid(header.handle_encoding) || header.handle_encoding == IntEncoding::None) {
         state_ = ReadState::ErrorInvalidEncoding;
         error_msg_ = "TOPO chunk: invalid handle encoding";
         return;
